@@ -409,6 +409,12 @@ def main():
             json.dump(info, open(rp, 'w'), indent=1)
             replay_text = json.dumps(info)
             suffix = '' if info.get('replayed_on_real_code') else ' no-failing-input-found'
+            if info.get('spurious'):
+                undecided.append((h, "the verifier's counterexample passes on the real code (over-approximated model); see %s" % rp))
+                for o in obligations:
+                    if o['obligation'] == name:
+                        o['verdict'] = 'undecided'
+                continue
         kf = None
         for k in known:
             if k['property'] == prop and k['obligation'] == name and re.search(k['input'], replay_text):
@@ -490,6 +496,11 @@ def replay_kani(h, descs, prop):
         info['native_replay_output_tail'] = pout[-2500:]
         if re.search(r'test result: FAILED|panicked at', pout) and tname.group(1) in pout:
             info['replayed_on_real_code'] = True
+        elif re.search(r'test result: ok\. 1 passed', pout):
+            # the verifier's counterexample does NOT fail on the real code: the refutation comes
+            # from an over-approximation in the verifier's model (e.g. Kani's nondeterministic
+            # powi/powf).  That is "undecided", never a violation.
+            info['spurious'] = True
     finally:
         open(target, 'w').write(src)
     return info
